@@ -91,6 +91,15 @@ namespace link_layer {
          */
         bool more_than_one() const;
 
+        /**
+         * @brief rewinds an empty ring to the start of the buffer, so that the whole buffer can be allocated again.
+         *
+         * In contrast to reset(), no memory is written: a buffer that was handed out by alloc_front() and is not
+         * yet pushed might be located at the start of the buffer and must not be touched. If the ring is not empty,
+         * nothing happens.
+         */
+        void rewind_if_empty( std::uint8_t* buffer );
+
     private:
         static constexpr std::size_t    ll_header_size = 2;
         static constexpr std::uint16_t  wrap_mark = 0;
@@ -213,6 +222,16 @@ namespace link_layer {
     std::size_t pdu_ring_buffer< Size, Buffer, Layout >::pdu_length( P* p )
     {
         return Layout::data_channel_pdu_memory_size( Layout::header( p ) >> 8 );
+    }
+
+    template < std::size_t Size, typename Buffer, typename Layout >
+    void pdu_ring_buffer< Size, Buffer, Layout >::rewind_if_empty( std::uint8_t* buffer )
+    {
+        if ( front_ == end_ )
+        {
+            front_ = buffer;
+            end_   = buffer;
+        }
     }
 
     template < std::size_t Size, typename Buffer, typename Layout >
